@@ -37,6 +37,7 @@ use ractor::{
 // -----------------------------------------------------------------------------------------
 
 /// Run `f` on a paused single-thread runtime; panics are silent (they are caught by ractor).
+#[cfg(not(feature = "async-std"))]
 pub fn run_paused<F: Future>(f: F) -> F::Output {
     std::panic::set_hook(Box::new(|_| {}));
     let rt = tokio::runtime::Builder::new_current_thread()
@@ -45,6 +46,17 @@ pub fn run_paused<F: Future>(f: F) -> F::Output {
         .build()
         .expect("runtime");
     rt.block_on(f)
+}
+
+/// async-std backend (package `hcoreas`): the harness future runs under `async_std::task::block_on`,
+/// every ractor task is spawned by ractor on async-std's global multi-thread executor. All of them are
+/// gated (`verif::controlled` is hooked into async_std_primitives.rs too), so at any time at most the
+/// one granted task is being polled, on whichever executor thread picks it up; `Engine::poll_task`
+/// waits until that poll has happened. There is no clock to pause: the Life ops use no timer.
+#[cfg(feature = "async-std")]
+pub fn run_paused<F: Future>(f: F) -> F::Output {
+    std::panic::set_hook(Box::new(|_| {}));
+    async_std::task::block_on(f)
 }
 
 pub struct Engine {
@@ -962,8 +974,13 @@ impl World {
                 verif::note("ret Ok".into());
             }
             Some(Ok(Err(e))) => verif::note(format!("ret Err({})", spawn_err_str(&e))),
+            #[cfg(not(feature = "async-std"))]
             Some(Err(e)) if e.is_cancelled() => verif::note("sjoin Cancelled".into()),
+            #[cfg(not(feature = "async-std"))]
             Some(Err(_)) => verif::note("ret Panic".into()),
+            // async-std backend: `Err(())` = the `Abortable` wrapper saw the abort flag
+            #[cfg(feature = "async-std")]
+            Some(Err(())) => verif::note("sjoin Cancelled".into()),
             None => verif::note("ret Pending".into()),
         }
     }
@@ -1040,7 +1057,7 @@ impl World {
             verif::note("nospawn".into());
             return;
         }
-        if let Some(h) = self.actors[a].inst.as_ref() {
+        if let Some(h) = self.actors[a].inst.as_mut() {
             h.abort();
         }
         self.eng.settle_done(&ot).await;
@@ -1256,7 +1273,8 @@ impl World {
     }
 
     pub async fn abort(&mut self, a: usize) {
-        match (self.actors[a].task.clone(), self.actors[a].handle.as_ref()) {
+        // `as_mut`: the async-std backend's `JoinHandle::abort` takes `&mut self`
+        match (self.actors[a].task.clone(), self.actors[a].handle.as_mut()) {
             (Some(t), Some(h)) if !t.is_done() => {
                 h.abort();
                 self.eng.settle_done(&t).await;
@@ -1444,10 +1462,19 @@ impl World {
                     res = hand.poll_once();
                     i += 1;
                 }
+                #[cfg(not(feature = "async-std"))]
                 let r = match res {
                     Some(Ok(())) => "Ok",
                     Some(Err(e)) if e.is_cancelled() => "Cancelled",
                     Some(Err(_)) => "Panic",
+                    None => "Pending",
+                };
+                // async-std backend: `JoinHandle<T>: Future<Output = Result<T, ()>>`, `Err(())` = the
+                // `Abortable` wrapper saw the abort flag (a panic escaping a task is not reported as a value by this handle; ractor catches callback panics itself)
+                #[cfg(feature = "async-std")]
+                let r = match res {
+                    Some(Ok(())) => "Ok",
+                    Some(Err(())) => "Cancelled",
                     None => "Pending",
                 };
                 ev.push(format!("join {a} {r}"));
@@ -1607,10 +1634,10 @@ impl World {
             if let Some(h) = s.spawn.as_mut() {
                 h.drop_now();
             }
-            if let Some(h) = s.handle.as_ref() {
+            if let Some(h) = s.handle.as_mut() {
                 h.abort();
             }
-            if let Some(h) = s.inst.as_ref() {
+            if let Some(h) = s.inst.as_mut() {
                 h.abort();
             }
         }
